@@ -118,6 +118,13 @@ def cases(tier, seed):
                 out.append(dict(kind="nonstatio", dim=1 + n % 2, cap_t=ct, nstart_t=nt0, sel_t=st_, sample_t=max(st_, 2), b_t=2, cap_x=cx,
                                 nstart_x=nx0, sel_x=sx, sample_x=max(sx, 3), b_x=2, start=start, every=every, iters=start + every * 8 + 1,
                                 seed=sd + n, land=lands[n % 3], ret="scalar"))
+    # more points selected per step on one axis than candidates drawn on that axis (legal: the step ranks the candidate PAIRS)
+    for start in (0, 1):
+        for (ct, nt0, st_, smp_t, cx, nx0, sx, smp_x) in ((12, 2, 3, 2, 8, 2, 1, 3), (8, 2, 1, 3, 12, 3, 3, 2), (11, 2, 4, 3, 9, 1, 2, 2)):
+            n += 1
+            out.append(dict(kind="nonstatio", dim=1 + n % 2, cap_t=ct, nstart_t=nt0, sel_t=st_, sample_t=smp_t, b_t=2, cap_x=cx,
+                            nstart_x=nx0, sel_x=sx, sample_x=smp_x, b_x=2, start=start, every=1, iters=start + 6,
+                            seed=sd + n, land=lands[n % 3], ret=("scalar", "vec")[n % 2]))
     # refinement driven by a SYSTEM loss (two equations of opposite sign sharing one unknown)
     sysl, seen = [], {}
     for k, c in enumerate(out):
